@@ -488,6 +488,31 @@ func TestVerifReuse(t *testing.T) {
 				return append(p, o...)
 			})
 		}
+		// ---- OPRF public keys: one object decodes keys of different suites in
+		// turn (a server talking to clients of several suites)
+		{
+			sus := []oprf.Suite{oprf.SuiteRistretto255, oprf.SuiteP256, oprf.SuiteP384, oprf.SuiteP521}
+			var usedPK oprf.PublicKey
+			for step := 0; step < 6; step++ {
+				su := sus[(step*3+i)%len(sus)]
+				k, _ := oprf.DeriveKey(su, oprf.BaseMode, r.Bytes(32), nil)
+				enc, _ := k.Public().MarshalBinary()
+				var freshPK oprf.PublicKey
+				e1, e2 := usedPK.UnmarshalBinary(su, lib.Clone(enc)), freshPK.UnmarshalBinary(su, lib.Clone(enc))
+				var m1, m2 []byte
+				if e1 == nil {
+					m1, _ = usedPK.MarshalBinary()
+				}
+				if e2 == nil {
+					m2, _ = freshPK.MarshalBinary()
+				}
+				lib.Count("reuse:oprf.PublicKey-across-suites")
+				if (e1 == nil) != (e2 == nil) || !lib.Eq(m1, m2) {
+					reuseViol("oprf.PublicKey.UnmarshalBinary", "decode-into-used-differs", "suite", su.Identifier(), "err_used", e1, "err_fresh", e2, "encoding", enc, "used_reencodes_to", m1)
+					break
+				}
+			}
+		}
 		// ---- CSIDH
 		if i%6 == 0 {
 			var prvA, prvB csidh.PrivateKey
@@ -510,6 +535,18 @@ func TestVerifReuse(t *testing.T) {
 			fresh.Export(of[:])
 			if ou != of {
 				reuseViol("csidh.PublicKey.Import", "decode-into-used-differs", "got", ou[:], "want", of[:])
+			}
+			// GeneratePublicKey into an object that already holds another key: the
+			// receiver's previous value must not enter the result
+			{
+				gen := pubA // holds A's public key
+				csidh.GeneratePublicKey(&gen, &prvB, r)
+				var og [csidh.PublicKeySize]byte
+				gen.Export(og[:])
+				lib.Count("reuse:csidh.GeneratePublicKey-into-used")
+				if og != eb {
+					reuseViol("csidh.GeneratePublicKey", "decode-into-used-differs", "stage", "public key generated into an object that held another key", "got", og[:], "want", eb[:])
+				}
 			}
 			// DeriveSecret must not change its operands and be repeatable
 			var s1, s2 [64]byte
